@@ -3242,6 +3242,9 @@ func (d *Document) parseContentTypes() error {
 		return WrapError("parse_content_types", err)
 	}
 
+	// 其他生成器可能给元素加命名空间前缀（<ns0:Types xmlns:ns0=...>），此时 xmlns 属性为空；
+	// 写回时必须带上正确的默认命名空间，否则整个部件不在任何命名空间中
+	contentTypes.Xmlns = "http://schemas.openxmlformats.org/package/2006/content-types"
 	d.contentTypes = &contentTypes
 	Debugf("内容类型解析完成")
 	return nil
@@ -3263,6 +3266,8 @@ func (d *Document) parseRelationships() error {
 		return WrapError("parse_relationships", err)
 	}
 
+	// 同上：带前缀的关系部件解析后 xmlns 为空，写回时补上默认命名空间
+	relationships.Xmlns = "http://schemas.openxmlformats.org/package/2006/relationships"
 	d.relationships = &relationships
 	Debugf("关系解析完成")
 	return nil
